@@ -86,6 +86,14 @@ func (p *PipeEnd) Inject(frame []byte) {
 
 // Recv implements transport.Conn.
 func (p *PipeEnd) Recv(ctx context.Context, b *bin.Buffer) error {
+	if p.O != nil {
+		// what bounds this wait: the deadline of the context the caller passed (-1 = none)
+		dl := int64(-1)
+		if d, ok := ctx.Deadline(); ok {
+			dl = int64(d.Sub(vsched.Epoch) / time.Millisecond)
+		}
+		p.O.Log("recvbegin %s t=%d dl=%d", p.Name, vsched.Elapsed()/time.Millisecond, dl)
+	}
 	for {
 		vsched.Cond(p.Name+"-recv", func() bool { return len(p.q) > 0 || p.closed || p.peer.closed || ctxDone(ctx) })
 		if len(p.q) > 0 {
